@@ -108,6 +108,9 @@ func loadEngine(repo string, specDir string) (*Engine, error) {
 		if _, ok := e.tpkgs[sn]; !ok {
 			e.tpkgs[sn] = p.Pkg
 		}
+		if _, ok := e.tpkgs[p.Pkg.Name()]; !ok {
+			e.tpkgs[p.Pkg.Name()] = p.Pkg // dependencies are also reachable by their package name (pubsub)
+		}
 	}
 	if err := e.loadSpecs(); err != nil {
 		return nil, err
